@@ -3,7 +3,7 @@ From Coq Require Import Reals Lra Bool.
 From GS Require Import Num NumR Geo Sim.
 From Coq Require Import ZArith.
 From GS Require Import NumZ.
-From GS.Proofs Require Import GeoP SimP3.
+From GS.Proofs Require Import GeoP GeoMetric SimP3.
 
 (** Structure of the conversion (every number type): z is the altitude difference; x is the
     distance along the reference parallel to the target's longitude, signed by the longitude
@@ -53,6 +53,63 @@ Proof.
     apply Ropp_lt_gt_0_contravar. apply Rmult_gt_0_compat; lra.
 Qed.
 
+(** East-west separations (partial form of the metric clause, reference-to-target along the axes):
+    |x| lies between the CHORD and the ARC that the longitude difference d (radians) spans on the
+    reference parallel, hence within a relative d^2/24 of the arc (1.0e-7 for 10 km at the equator);
+    x carries the sign of the longitude difference. *)
+Theorem C20_x_between_chord_and_arc (ref tgt : vec3 R) :
+  let d := (rad (vy tgt) - rad (vy ref))%R in
+  let c := Rabs (cos (rad (vx ref))) in
+  (Rabs d < PI)%R ->
+  (Rearth * c * Rabs d * (1 - d * d / 24) <= Rabs (vx (geo_to_cartesian R_ops ref tgt)) <= Rearth * c * Rabs d)%R /\
+  (2 * Rearth * c * sin (Rabs d / 2) <= Rabs (vx (geo_to_cartesian R_ops ref tgt)))%R /\
+  (vy ref <= vy tgt -> 0 <= vx (geo_to_cartesian R_ops ref tgt))%R /\
+  (vy tgt < vy ref -> vx (geo_to_cartesian R_ops ref tgt) <= 0)%R.
+Proof.
+  intros d c Hb.
+  assert (Hx : vx (geo_to_cartesian R_ops ref tgt) =
+               if Rleb (vy ref) (vy tgt) then haversine R_ops (vx ref) (vy ref) (vx ref) (vy tgt)
+               else Ropp (haversine R_ops (vx ref) (vy ref) (vx ref) (vy tgt))) by reflexivity.
+  rewrite Hx. clear Hx.
+  pose proof (haversine_parallel_bounds (vx ref) (vy ref) (vy tgt) Hb) as [[Hlo Hhi] Hcub].
+  fold d c in Hlo, Hhi, Hcub.
+  set (L := haversine R_ops (vx ref) (vy ref) (vx ref) (vy tgt)) in *.
+  assert (HL : (0 <= L)%R).
+  { eapply Rle_trans; [|exact Hlo].
+    assert (0 <= c)%R by apply Rabs_pos. assert (0 <= Rabs d)%R by apply Rabs_pos.
+    assert (0 <= sin (Rabs d / 2))%R by (apply sin_ge_0; lra).
+    unfold Rearth. repeat apply Rmult_le_pos; lra. }
+  assert (Hsq : (Rabs d * Rabs d = d * d)%R).
+  { unfold Rabs. destruct (Rcase_abs d); ring. }
+  rewrite Hsq in Hcub.
+  destruct (Rleb (vy ref) (vy tgt)) eqn:E.
+  - apply Rleb_true in E. rewrite (Rabs_right L) by lra. repeat split; try assumption; intros; lra.
+  - apply Rleb_false in E. rewrite Rabs_Ropp, (Rabs_right L) by lra. repeat split; try assumption; intros; lra.
+Qed.
+
+(** Two targets on one meridian (same longitude): their converted points are exactly as far apart
+    as the great circle between them is long — the x coordinates coincide and the y coordinates
+    differ by (earth radius) x (latitude difference). *)
+Theorem C20_same_meridian_pairs_exact (ref p q : vec3 R) :
+  vy p = vy q ->
+  (Rabs (rad (vx p) - rad (vx ref)) < PI)%R -> (Rabs (rad (vx q) - rad (vx ref)) < PI)%R ->
+  (Rabs (rad (vx q) - rad (vx p)) < PI)%R ->
+  vx (geo_to_cartesian R_ops ref p) = vx (geo_to_cartesian R_ops ref q) /\
+  Rabs (vy (geo_to_cartesian R_ops ref q) - vy (geo_to_cartesian R_ops ref p)) =
+  haversine R_ops (vx p) (vy p) (vx q) (vy q).
+Proof.
+  intros Hlon Hp Hq Hpq. split.
+  - assert (Hx : forall t, vx (geo_to_cartesian R_ops ref t) =
+                 if Rleb (vy ref) (vy t) then haversine R_ops (vx ref) (vy ref) (vx ref) (vy t)
+                 else Ropp (haversine R_ops (vx ref) (vy ref) (vx ref) (vy t))) by reflexivity.
+    rewrite !Hx, Hlon. reflexivity.
+  - rewrite (C20_y_exact ref p Hp), (C20_y_exact ref q Hq), <- Hlon.
+    rewrite (haversine_meridian (vx p) (vy p) (vx q) Hpq).
+    replace (Rearth * (rad (vx q) - rad (vx ref)) - Rearth * (rad (vx p) - rad (vx ref)))%R
+      with (Rearth * (rad (vx q) - rad (vx p)))%R by ring.
+    rewrite Rabs_mult. f_equal. apply Rabs_right. unfold Rearth. lra.
+Qed.
+
 (** The reference converts to the origin. *)
 Theorem C20_reference_is_origin (ref : vec3 R) :
   haversine R_ops (vx ref) (vy ref) (vx ref) (vy ref) = 0%R.
@@ -68,3 +125,5 @@ Print Assumptions C20_goto_geo_same_place.
 Print Assumptions C20_leg_terms.
 Print Assumptions C20_y_exact.
 Print Assumptions C20_reference_is_origin.
+Print Assumptions C20_x_between_chord_and_arc.
+Print Assumptions C20_same_meridian_pairs_exact.
